@@ -56,8 +56,8 @@ func genC23(r *simkit.Rand, tier string) *simkit.Plan {
 	}
 	p.Knobs["startEpoch"] = int64(r.Range(0, 3))
 	p.Knobs["trieLevel"] = int64(r.Range(1, 5))
-	p.Knobs["cacheSize"] = pick(1, 2, 10, 100)
-	p.Knobs["addrMode"] = int64(r.Range(0, 2))
+	p.Knobs["cacheSize"] = pick(1, 1, 2, 4, 100)
+	p.Knobs["addrMode"] = pick(0, 1, 2, 3, 3, 3)
 	nAcc := r.Range(2, 4)
 	p.Knobs["nAcc"] = int64(nAcc)
 
@@ -72,7 +72,7 @@ func genC23(r *simkit.Rand, tier string) *simkit.Plan {
 	}
 	huge := "1000000000000000000000"
 	balance := func() string {
-		switch r.Intn(8) {
+		switch r.Intn(12) {
 		case 0:
 			return "0"
 		case 1:
@@ -81,12 +81,12 @@ func genC23(r *simkit.Rand, tier string) *simkit.Plan {
 			return amount(pick(2, 3), pick(-1, 0, 1, 7))
 		case 3:
 			return amount(pick(10, 100), int64(r.Intn(1000)))
-		case 4:
+		case 4, 5:
 			return huge
-		case 5:
-			return amount(pick(1000, 1000000), int64(r.Intn(100000)))
+		case 6, 7, 8:
+			return amount(pick(1000, 100000, 10000000), int64(r.Intn(100000)))
 		default:
-			return amount(int64(r.Range(1, 40)), int64(r.Intn(50)))
+			return amount(int64(r.Range(1, 400)), int64(r.Intn(50)))
 		}
 	}
 	missing := -1
@@ -99,15 +99,15 @@ func genC23(r *simkit.Rand, tier string) *simkit.Plan {
 		}
 		p.Steps = append(p.Steps, simkit.Step{Op: "acct", T: i, S: []string{balance()}})
 	}
-	for k, n := 0, r.Intn(13); k < n; k++ {
+	for k, n := 0, r.Intn(13); k < n; k++ { // bystanders: at most 12
 		p.Steps = append(p.Steps, simkit.Step{Op: "fill", T: k, S: []string{balance()}})
 	}
 
 	// swarm weights of this run
-	wValue := []int{r.Range(1, 5), r.Range(0, 5), r.Range(0, 4), r.Range(0, 4), r.Range(0, 2)}
-	wNonce := []int{r.Range(3, 10), r.Range(0, 2), r.Range(0, 2), r.Range(0, 1)}
-	wPrice := []int{r.Range(4, 10), r.Range(0, 1), r.Range(0, 1)}
-	wLimit := []int{r.Range(4, 10), r.Range(0, 1)}
+	wValue := []int{r.Range(4, 10), r.Range(0, 3), r.Range(0, 2), r.Range(0, 2), r.Range(0, 1)}
+	wNonce := []int{r.Range(6, 14), r.Range(0, 2), r.Range(0, 2), r.Range(0, 1)}
+	wPrice := []int{r.Range(8, 14), r.Range(0, 1), r.Range(0, 1)}
+	wLimit := []int{r.Range(8, 14), r.Range(0, 1)}
 	pSelf := r.Float64() * 0.3
 	pData := r.Float64() * 0.5
 	pFault := 0.0
@@ -115,6 +115,12 @@ func genC23(r *simkit.Rand, tier string) *simkit.Plan {
 		pFault = 0.1 + r.Float64()*0.4
 	}
 	pCommit, pRestart, pEpoch := r.Float64()*0.2, r.Float64()*0.12, r.Float64()*0.1
+	if p.Arm == "get_error" && r.Chance(0.7) {
+		// cold reads are what the fault needs: end blocks and restart more often, keep less of the trie in memory
+		pCommit, pRestart = 0.1+r.Float64()*0.4, 0.05+r.Float64()*0.35
+		p.Knobs["trieLevel"] = int64(r.Range(1, 3))
+		p.Knobs["cacheSize"] = pick(1, 1, 2)
+	}
 
 	nTx := r.Range(5, 40)
 	for i := 0; i < nTx; i++ {
@@ -131,7 +137,7 @@ func genC23(r *simkit.Rand, tier string) *simkit.Plan {
 		vd := pick(-1, 0, 0, 1, -2, 5)
 		abs := "0"
 		if vm == vAbs {
-			switch r.Intn(8) {
+			switch r.Intn(14) {
 			case 0:
 				abs = "0"
 			case 1:
@@ -143,16 +149,16 @@ func genC23(r *simkit.Rand, tier string) *simkit.Plan {
 			case 4:
 				abs = "100000000000000000000000000" // more bytes than the genesis total supply
 			default:
-				abs = amount(int64(r.Range(0, 5)), int64(r.Intn(100)))
+				abs = amount(int64(r.Range(0, 30)), int64(r.Intn(100)))
 			}
 		}
 		pm := int64(r.Weighted(wPrice))
-		pa := pick(0, 0, 0, 1, 7, 1000)
+		pa := pick(0, 0, 0, 0, 1, 7)
 		if pm == 2 {
 			pa = pick(0, minGasPrice*3, 1000000000000)
 		}
 		lm := int64(r.Weighted(wLimit))
-		la := pick(0, 0, 0, 1, 10, 1000, 50000, -1)
+		la := pick(0, 0, 0, 0, 0, 1, 10, 1000, 50000, -1)
 		if lm == 1 {
 			la = pick(-1, 0, 5)
 		}
